@@ -34,7 +34,8 @@ type GetSpec struct {
 
 // SStep is one step of a server-level script.
 type SStep struct {
-	K     string     `json:"k"` // connect params elect ops multi none close abort flush get
+	K     string     `json:"k"` // connect params elect ops multi none close abort sendfail flush get getcut
+	Cut   int        `json:"cut,omitempty"` // getcut: stream.Send fails once Cut responses were delivered
 	S     int        `json:"s,omitempty"`
 	Red   int        `json:"red,omitempty"`
 	Pers  int        `json:"pers,omitempty"`
@@ -239,6 +240,16 @@ func (x *SRun) Step(st SStep) SObs {
 		err = s.HalfClose()
 	case "abort":
 		err = s.Abort()
+	case "sendfail":
+		err = s.SendFail()
+	case "getcut":
+		items, gerr, hang := x.D.DoGet(st.Get.GetReq(), st.Cut)
+		o.Hang = hang
+		o.GetOK = gerr == nil
+		o.GetItems = items
+		if hang == "" {
+			o.Hang = x.waitLocksFree()
+		}
 	case "flush":
 		o.FlushSt, o.Hang = x.D.DoFlush(st.Flush.FlushReq())
 	case "get":
@@ -259,6 +270,28 @@ func (x *SRun) Step(st SStep) SObs {
 		x.rep[s] = true
 	}
 	return o
+}
+
+// waitLocksFree polls until every network instance's lock can be taken (no abandoned reader holds it).
+func (x *SRun) waitLocksFree() string {
+	deadline := time.Now().Add(Watchdog)
+	r := x.D.S.VerifRIB()
+	for {
+		busy := ""
+		for _, n := range r.KnownNetworkInstances() {
+			h, _ := r.NetworkInstanceRIB(n)
+			if !h.VerifTryLock() {
+				busy = n
+			}
+		}
+		if busy == "" {
+			return ""
+		}
+		if time.Now().After(deadline) {
+			return fmt.Sprintf("HANG: network instance %s is still locked %v after an abandoned Get", busy, Watchdog)
+		}
+		time.Sleep(200 * time.Microsecond)
+	}
 }
 
 // Finish aborts every session that is still open.
@@ -360,8 +393,10 @@ func (st SStep) Coq(o SObs) string {
 		return fmt.Sprintf("SIn (Msg _ %d (MOps _ %s))", st.S, CoqList(ops))
 	case "close":
 		return fmt.Sprintf("SIn (HalfClose _ %d)", st.S)
-	case "abort":
+	case "abort", "sendfail":
 		return fmt.Sprintf("SIn (Abort _ %d)", st.S)
+	case "getcut":
+		return "SGet " + st.Get.coq()
 	case "flush":
 		return "SFlush " + st.Flush.coq()
 	case "get":
@@ -447,6 +482,15 @@ func (o SObs) Coq(st SStep) string {
 	switch st.K {
 	case "flush":
 		return "OFlush " + o.FlushSt
+	case "getcut":
+		return "OAny"
+	case "sendfail":
+		// a response could not be written: Modify returns Internal; the model has one "went away" step
+		e := o.End
+		if e != nil && e.Code == codes.Internal {
+			e = &End{Code: codes.Unknown}
+		}
+		return "OMod (" + OutCoq(ObsOut{End: e}) + ")"
 	case "get":
 		if !o.GetOK {
 			return "OGet None"
@@ -465,6 +509,8 @@ func (o SObs) Text(st SStep) string {
 	switch st.K {
 	case "flush":
 		return o.FlushSt + " " + o.Hang
+	case "getcut":
+		return fmt.Sprintf("cut after %d of the responses, %d received %s", st.Cut, len(o.GetItems), o.Hang)
 	case "get":
 		if !o.GetOK {
 			return "error " + o.GetErr + " " + o.Hang
